@@ -91,7 +91,44 @@ def run(ctx):
             c["kbpk"] = rng.randbytes(rng.choice((16, 24)))
             ops = t.setup_ops(c) + [("S",), ("W", c["key"], None), ("F", 0, v2), ("W", c["key"], None), ("S",), ("F", 0, v1), ("W", c["key"], 30)]
             seqs.append((c["kbpk"], ops))
+    # ... and unwraps on one reused object: genuine blocks sharing optional-block ids in a different order
+    #     (the header returned by the second unwrap must be the second original, in ids, data AND order)
+    expect_after = {}
+    for v in "ABCD":
+        for _ in range(ctx.n(3, 12)):
+            c1 = t.gen_case(rng, version=v, profile="few", keylen=rng.choice([8, 16, 24]), mask=None)
+            while len(c1["blocks"]) < 2:
+                c1 = t.gen_case(rng, version=v, profile="few", keylen=16, mask=None)
+            c1["kbpk"] = rng.randbytes(rng.choice((16, 24)))
+            c2 = dict(c1)
+            perm = c1["blocks"][:]
+            while perm == c1["blocks"]:
+                rng.shuffle(perm)
+            extra = [(t.gen_block_id(rng, set(b[0] for b in perm)), "n")] if rng.random() < 0.5 else []
+            c2["blocks"] = [(b[0], t.rstr(rng, rng.randrange(0, 9), t.PRINT)) for b in perm[:rng.randrange(2, len(perm) + 1)]] + extra
+            c2["hdr16"] = t.gen_case(rng, version=rng.choice("ABCD"), profile="none")["hdr16"]
+            c2["key"] = rng.randbytes(rng.choice([8, 16, 24]))
+            try:
+                g1 = tr31.wrap(c1["kbpk"], t.impl_header(c1), c1["key"])
+                g2 = tr31.wrap(c1["kbpk"], t.impl_header(c2), c2["key"])
+            except Exception:  # noqa: BLE001
+                continue
+            bad = g1[:-1] + ("0" if g1[-1] != "0" else "1")
+            ops = rng.choice([[("U", g1), ("S",), ("U", g2), ("S",)], [("U", g1), ("U", bad), ("U", g2), ("S",)],
+                              [("U", g2), ("U", g1), ("S",), ("U", g2)], [("L", g1[:16 + sum(len(b[1]) + 4 for b in c1["blocks"])]), ("U", g2)]])
+            last_u = max(i for i, o_ in enumerate(ops) if o_[0] == "U")
+            want = t.impl_header(c2 if ops[last_u][1] == g2 else c1)
+            expect_after[len(seqs)] = (core.show_header(want), core.show(c2["key"] if ops[last_u][1] == g2 else c1["key"]), last_u)
+            seqs.append((c1["kbpk"], ops))
     both, mops = t.run_both(seqs)
+    for si, (want_h, want_k, last_u) in expect_after.items():
+        kbpk, ops = seqs[si]
+        h, outs = core.impl_run_ops(kbpk, ops[:last_u + 1])
+        # a pad block may be present in neither original (the impl drops PB on load): plain comparison
+        if outs[-1] != "bytes:" + want_k or h != want_h:
+            viol.append({"what": "unwrap on a reused object does not return the original key and header (ids, data, order)",
+                         "input": {"kbpk": kbpk.hex(), "ops": [core.op_token(x)[:300] for x in ops[:last_u + 1]]},
+                         "expected": [want_k, want_h[:200]], "observed": [outs[-1][:80], h[:200]]})
     for (kbpk, ops), (impl, model) in zip(seqs, both):
         if impl != model:
             diffs.append({"sequence": [core.op_token(o_)[:60] for o_ in ops], "impl": [impl[0][:80]] + [x[:50] for x in impl[1]],
